@@ -278,6 +278,19 @@ def matmul(a, b):
         if i != 1 and j != 1 and i != j:
             raise ValueError("shapes of a and b are not broadcastable")
 
+    batch = tuple(j if i == 1 else i for i, j in zip(a.shape[:-2], b.shape[:-2], strict=True))
+    if 0 in batch:
+        # nothing to multiply: the recursion below cannot stack an empty list of results
+        from ._coo import COO
+
+        if a.shape[-1] != b.shape[-2]:
+            raise ValueError("shape-mismatch for sum")
+        out_shape = batch + (a.shape[-2], b.shape[-1])
+        dt = np.result_type(a.dtype, b.dtype)
+        if isinstance(a, SparseArray) and isinstance(b, SparseArray):
+            return COO(np.empty((len(out_shape), 0), dtype=np.intp), data=np.empty(0, dtype=dt), shape=out_shape)
+        return np.zeros(out_shape, dtype=dt)
+
     def _matmul_recurser(a, b):
         if a.ndim == 2:
             return dot(a, b)
